@@ -197,11 +197,10 @@ def _substitute_original_strings(original_source: str, new_source: str) -> str:
         original_modifiers &= set("brf")
         new_modifiers &= set("brf")
 
-        # If the modifiers are not the same, we use the new modifiers.
+        # If the modifiers are not the same, the original formatting cannot be reused: the text
+        # between the quotes of a raw string means something else without the r.
         if new_modifiers != original_modifiers:
-            prefix = "".join(sorted(new_modifiers, key="frb".index))
-            most_common_original_formatting = most_common_original_formatting.lstrip("brf")
-            most_common_original_formatting = prefix + most_common_original_formatting
+            continue
 
         replacements[node] = most_common_original_formatting
 
